@@ -731,6 +731,11 @@ def eval_conv_family(levels):
     if not all(RATIO_LO <= r <= RATIO_HI for r in rr):
         res.append(("viol", "conv:%s:%s:order" % (D, P),
                     "rms error not second order (observed order %.2f); %s" % (math.log(max(rr[1], 1e-300), 2), desc), None))
+    elif RATIO_LO <= rm[1] <= RATIO_HI and not (PRE_LO <= rm[0] <= PRE_HI) and 1.5 <= rm[0] <= 8.0:
+        # second order between the two finer levels; the coarsest level (errors of several percent of the surface's range)
+        # is not yet in the asymptotic regime: an observation, not a verdict (the order is decided by the finer halving
+        # and by the RMS error at both halvings)
+        res.append(("observe", "conv:%s:%s:max_norm_preasymptotic_at_coarsest_level" % (D, P), desc, ("conv", D, P, "second_order")))
     elif not (PRE_LO <= rm[0] <= PRE_HI and RATIO_LO <= rm[1] <= RATIO_HI):
         corner = sum(1 for p in per if not p) >= 2
         if corner and not CORNER_MAXNORM_IS_VIOLATION and all(CORNER_FLOOR[i] <= rm[i] <= PRE_HI for i in range(2)):
